@@ -53,7 +53,7 @@ var c07Swapped = c07CtxSwapped()
 func c07Ctx() pongo2.Context {
 	return pongo2.Context{
 		"i0": 0, "i1": 1, "i2": 2, "i7": 7, "in3": -3, "u8": uint8(2),
-		"f05": 0.5, "f2": 2.0, "fn15": -1.5, "big": c07Big62,
+		"f05": 0.5, "f2": 2.0, "fn15": -1.5, "big": c07Big62, "nan": math.NaN(),
 		"se": "", "sa": "a", "s1": "1",
 		"bt": true, "bf": false,
 		"li": []int{1, 2, 3}, "ls": []string{"a", "b"}, "m": map[string]int{"a": 1},
@@ -94,12 +94,12 @@ func leafS(t string, v string) *xnode  { return &xnode{text: t, val: xval{k: kS,
 func leafB(t string, v bool) *xnode    { return &xnode{text: t, val: xval{k: kB, b: v}} }
 
 var c07FullLeaves = []*xnode{
-	leafI("0", 0), leafI("1", 1), leafI("2", 2), leafI("3", 3), leafI("7", 7),
+	leafI("0", 0), leafI("1", 1), leafI("2", 2), leafI("3", 3), leafI("7", 7), leafI("010", 10), leafI("08", 8), leafF("010.50", 10.5),
 	leafF("0.5", 0.5), leafF("2.0", 2.0),
 	leafS(`""`, ""), leafS(`"a"`, "a"), leafS(`"1"`, "1"),
 	leafB("true", true), leafB("false", false),
 	leafI("i0", 0), leafI("i2", 2), leafI("in3", -3), leafI("u8", 2),
-	leafF("f05", 0.5), leafF("fn15", -1.5), leafF("big", c07Big62),
+	leafF("f05", 0.5), leafF("fn15", -1.5), leafF("big", c07Big62), leafF("nan", math.NaN()),
 	leafS("sa", "a"), leafS("se", ""),
 	leafB("bt", true), leafB("bf", false),
 	{text: "li", val: xval{k: kLI, n: 3}}, {text: "ls", val: xval{k: kLS, n: 2}}, {text: "m", val: xval{k: kM, n: 1}},
@@ -252,7 +252,8 @@ func (e *xeval) eval(n *xnode) (xval, xstatus) {
 		if v.k == kI && (v.i > c07Big || v.i < -c07Big) {
 			return v, stUnjudged
 		}
-		if v.k == kF && (math.IsNaN(v.f) || math.IsInf(v.f, 0) || math.Abs(v.f) > c07BigF) {
+		// NaN is a float like any other: arithmetic keeps it, every ordering comparison with it is false, it is != itself and true
+		if v.k == kF && (math.IsInf(v.f, 0) || math.Abs(v.f) > c07BigF) {
 			return v, stUnjudged
 		}
 		return v, stOK
@@ -314,7 +315,7 @@ func (e *xeval) eval(n *xnode) (xval, xstatus) {
 			return l, stUnjudged
 		}
 		p := math.Pow(fl(l), fl(r))
-		if math.IsNaN(p) || math.IsInf(p, 0) || math.Abs(p) > c07BigF || (l.k == kI && r.k == kI && math.Abs(p) > c07Big) {
+		if math.IsInf(p, 0) || math.Abs(p) > c07BigF || (l.k == kI && r.k == kI && (math.IsNaN(p) || math.Abs(p) > c07Big)) {
 			return l, stUnjudged
 		}
 		if e.powInt && l.k == kI && r.k == kI {
